@@ -81,6 +81,22 @@ def pulled_under_reorderings(prog: GProg, selection: dict, pulled: set):
     return res
 
 
+def with_sibling(op):
+    """The AsyncDAG is awaited while another task is alive on the same loop (a heartbeat that runs whenever the loop is free)."""
+    import asyncio as _aio
+
+    async def wrapped():
+        async def heartbeat():
+            while True:
+                await _aio.sleep(0)
+        t = _aio.ensure_future(heartbeat())
+        try:
+            return await op()
+        finally:
+            t.cancel()
+    return wrapped
+
+
 def make_op(d, prog: GProg, selection: Optional[dict]):
     ids = prog.ids()
     if selection is not None and selection.get("alias") == "tag_eq_id":
@@ -295,6 +311,8 @@ def run_case(acc, c: dict, monitors: List[Callable], nontrivial: Optional[Callab
             fresh()
         H.Tok.FALSY = set(prog.falsy)
         op = make_op(state["d"], prog, selection)
+        if c.get("sibling") and prog.is_async:
+            op = with_sibling(op)
         if c.get("composed"):
             import warnings as _w
             ids_ = prog.ids()
@@ -411,6 +429,8 @@ def replay_case(c: dict, monitors: List[Callable], prefix, prog: Optional[GProg]
                             pre[i] = e[2]
         H.Tok.FALSY = set(prog.falsy)
         op_ = make_op(d, prog, selection)
+        if c.get("sibling") and prog.is_async:
+            op_ = with_sibling(op_)
         if c.get("composed"):
             import warnings as _w
             ids_ = prog.ids()
